@@ -178,7 +178,38 @@ def c29(t):
     return out.finish()
 
 
-PROPS = {"C26": c26, "C35": c35, "C10": c10, "C29": c29}
+def c33(t):
+    out = C.Outcome("C33", "model_checking", t, ["ordinals::Rune::{minimum_at_height,unlock_height,first_rune_height,is_reserved,STEPS,UNLOCK_INTERVAL}"])
+    out.assumptions = [E2_NOTE, "bitcoin::Network variant order and SUBSIDY_HALVING_INTERVAL are read from the pinned bitcoin crate source in the cargo registry",
+                       "the 12 STEPS intervals are split by forking on the (solver-enumerated) index; Iterator::position over STEPS is modelled as first-match"]
+    run_e2(out, "C33", t)
+    return out.finish()
+
+
+def c34(t):
+    out = C.Outcome("C34", "model_checking", t, ["ord::decimal::Decimal::to_integer", "ordinals::Pile as Display (numeric arguments of write!)", "ord::decimal::Decimal::from_str (see C31)"])
+    out.assumptions = [E2_NOTE, SHIM_NOTE,
+                       "rendering of integers to decimal digits (core::fmt) is not encoded: Pile's Display is decided up to the numbers it hands to write! (whole, fraction, zero-pad width); "
+                       "that `{whole}.{fraction:0>width$}` parsed by Decimal::from_str gives back (whole, fraction, width) relies on decimal print/parse being inverse, which is assumed, not solved",
+                       "the parse half (Decimal::from_str accepts a string only as the number it denotes, never panics) is the C31 obligation c31_decimal_from_str_*"]
+    run_e2(out, "C34", t)
+    return out.finish()
+
+
+def c31(t):
+    out = C.Outcome("C31", "model_checking", t, ["ordinals::Sat::{from_degree,from_decimal,from_percentile}", "ord::decimal::Decimal::from_str",
+                                                 "ordinals::Height::{starting_sat,subsidy}", "Epoch::{from,subsidy,starting_sat}"])
+    out.assumptions = [E2_NOTE, SHIM_NOTE,
+                       "strings are abstract: str::split_once / parse::<uN> / parse::<f64> / chars().count() / trailing-zero count / ends_with / is_empty are stubs returning fresh values tied only by facts true of every string (listed in vlib/mirmodels.py); strings are shorter than 2^32 chars",
+                       "f64::from_str may return any f64 including NaN and +-inf (it accepts nan/inf/infinity case-insensitively)",
+                       "both profiles are decided: dev MIR (overflow = panic) and release MIR (overflow wraps)",
+                       "NOT covered: rune names/spaced runes (C32), rune IDs, satpoints, inscription IDs, outgoing assets and explorer queries - their parsers are iterator/regex code the MIR engine has no models for",
+                       "the height/offset a sat denotes is the closed form over Epoch::STARTING_SATS that C29 decides for the real Sat::height/Sat::third"]
+    run_e2(out, "C31", t, timeout=5400)
+    return out.finish()
+
+
+PROPS = {"C26": c26, "C35": c35, "C10": c10, "C29": c29, "C33": c33, "C34": c34, "C31": c31}
 
 
 def main(pid, argv):
